@@ -66,7 +66,7 @@ func DateFromString(data string) (*Date, error) {
 		return nil, fmt.Errorf("Invalid date string: %s", data)
 	}
 
-	if year < 0 || year > 9999 || month < 1 || month > 12 || day < 1 || day > 31 {
+	if year < 0 || year > 9999 || month < 1 || month > 12 || day < 1 || day > daysInMonth(year, month) {
 		return nil, fmt.Errorf("Invalid date string: %s", data)
 	}
 
@@ -77,6 +77,20 @@ func DateFromString(data string) (*Date, error) {
 	}
 
 	return dd, nil
+}
+
+// daysInMonth is the length of a month of the proleptic Gregorian calendar.
+func daysInMonth(year, month int) int {
+	switch month {
+	case 4, 6, 9, 11:
+		return 30
+	case 2:
+		if year%4 == 0 && (year%100 != 0 || year%400 == 0) {
+			return 29
+		}
+		return 28
+	}
+	return 31
 }
 
 // Equals returns true if the two dates are equal.
